@@ -240,6 +240,46 @@ def run(ctx):
             sc += [d % ("d%d" % j) if "%s" in d else d, "counters", "store"]
         sc += ["call after unsub 61", "counters"]
         sscripts.append(sc)
+    # accepted requests at the boundaries of the remaining-length encoding, on the real client: each must frame on the wire
+    # with exactly the announced length, so that the packet written next (a PINGREQ) still stands on its own
+    bscripts = []
+    for rls in ([127, 128, 129], [16383, 16384, 16385], [128, 16384], [2097151, 2097152] if not ctx.quick() else [129, 16383]):
+        for kind in ("unsub", "sub"):
+            sc = ["init 636c69 0 4 4", "dial ok 20020000", "feed block", "rs"]
+            for j, rl in enumerate(rls):
+                ln = rl - (4 if kind == "unsub" else 5)
+                if ln > 65535:
+                    n = rl // 60000 + 1                      # several filters of equal length plus the rest in the packet's size
+                    per = (rl - 2) // n - (2 if kind == "unsub" else 3)
+                    sc += ["call b%d %shuge %d %d" % (j, kind, n, per), "call p%d ping" % j, "brk", "rs", "dial ok 20020000", "feed block", "rs"]
+                    continue
+                sc += ["call b%d %shuge 1 %d" % (j, kind, ln), "call p%d ping" % j, "brk", "rs", "dial ok 20020000", "feed block", "rs"]
+            bscripts.append(sc)
+    stats["boundary_requests"] = 0
+    for sc, (io, mo) in zip(bscripts, sess.run_session(ctx, bscripts)):
+        tr = SC.parse_trace(io, sc)
+        for h in SC.mon_wire(tr):
+            v.violation("C09:" + h[0], "a request at a remaining-length boundary: " + h[1], {"port": "session", "script": [o[:80] for o in sc], "impl": [l[:160] for l in io[-12:]]})
+        w = SC.Wire()
+        for i, (op, lines) in enumerate(tr):
+            names = []
+            for l in lines:
+                if l.startswith("ev w "):
+                    names += [d["name"] for d in w.add(i, l.split()[2], SC.unhex(l.split()[3]))]
+            f = op.split()
+            if len(f) > 2 and f[0] == "call" and f[2].endswith("huge"):
+                stats["boundary_requests"] += 1
+                if names != [("unsubscribe" if f[2].startswith("unsub") else "subscribe")]:
+                    v.violation("C09:boundary-request", "`%s` put %s on the wire, want exactly one %s packet" % (op, names or "nothing that frames", f[2][:-4]),
+                                {"port": "session", "script": [o[:80] for o in sc], "impl": [l[:160] for l in io[-12:]]})
+            if len(f) > 2 and f[0] == "call" and f[2] == "ping" and names != ["pingreq"]:
+                v.violation("C09:boundary-request", "the PINGREQ after a request at a remaining-length boundary does not stand on its own: %s" % (names or "nothing that frames"),
+                            {"port": "session", "script": [o[:80] for o in sc], "impl": [l[:160] for l in io[-12:]]})
+        if not sess.unsupported(mo):
+            d = C.first_diff(io, mo)
+            if d:
+                v.broken_tie("implementation and model disagree on requests at remaining-length boundaries: impl `%s` model `%s`" % (d[1][:100], d[2][:100]),
+                             {"port": "session", "script": [o[:80] for o in sc], "impl": [l[:160] for l in io[-20:]], "model": [l[:160] for l in mo[-20:]]})
     stats["deny_session_ops"] = 0
     for sc, (io, mo) in zip(sscripts, sess.run_session(ctx, sscripts)):
         tr = SC.parse_trace(io, sc)
